@@ -388,6 +388,19 @@ def hav_sep(ra1, dec1, ra2, dec2):
     return 2 * math.asin(math.sqrt(min(1., max(0., x))))
 
 
+def sampler_consistent(gen):
+    """the RandomChoice instance was built from the current candidate table (None: not inspectable)"""
+    try:
+        cdf = np.asarray(gen._sig_candidates_random_choice._cdf, dtype=np.float64)
+        w = np.asarray(gen._sig_candidates['weight'], dtype=np.float64)
+    except Exception:  # noqa: BLE001
+        return None
+    if len(cdf) != len(w):
+        return False
+    c = np.cumsum(w)
+    return bool(np.all(np.abs(cdf - c / c[-1]) <= 1e-9)) if len(w) and np.isfinite(c[-1]) and c[-1] > 0 else True
+
+
 class AimRandom(np.random.RandomState):
     """RandomState whose random(size) returns uniforms in the middle of the CDF
     interval of chosen candidates."""
@@ -747,6 +760,10 @@ def run_mc_case(ctx, env, case, exprs, checks):
         if 'dec' in rd:
             ok &= rd['dec'][0] <= dec <= rd['dec'][1]
         return ok
+    if sampler_consistent(gen) is False:
+        ctx.violation(site, 'stale-sampler', 'the RandomChoice sampler does not belong to the current candidate table',
+                      case=case, predicate='table and sampler are rebuilt together (change_shg_mgr)')
+        return
     cdf = gen._sig_candidates_random_choice._cdf
     rs = AimRandom(__import__('random').Random(case['aim_seed']), budget=40 * max(1, case['n_signal']))
     rs.setup(cdf, [i for i in range(len(tbl)) if is_valid(i)])
@@ -1201,6 +1218,10 @@ def probe_mc(ctx, env, rng, case_a, case_b, alt_shgs):
         return
     gA.valid_event_field_ranges_dict_list = [dict(r) for r in C.ranges]
     ctx.count('C:change_shg_mgr')
+    if sampler_consistent(gA) is False:
+        ctx.violation(site, 'history:change_shg_mgr:stale-sampler',
+                      'the RandomChoice sampler does not belong to the current candidate table',
+                      case=dict(case_c, probe='change_shg_mgr'), predicate='table and sampler are rebuilt together')
     check_table(ctx, C, gA, 'change_shg_mgr')
     r5, live5 = observe(env, gA, seeds[1], [m1, m3])
     differs(C, 'change_shg_mgr', r5, twin(C, seeds[1], [m1, m3]))
@@ -1284,9 +1305,18 @@ def run_probes(ctx):
         tries += 1
         a, b, c = gen_mc_case(rng, small=True), gen_mc_case(rng, small=True), gen_mc_case(rng, small=True)
         before = ctx.stats.get('C:mc-probe-sets', 0)
-        probe_mc(ctx, env, rng, a, b, c['shgs'])
+        try:
+            probe_mc(ctx, env, rng, a, b, c['shgs'])
+        except Exception as ex:  # noqa: BLE001
+            ctx.violation('MCMultiDatasetSignalGenerator', 'history:raises-' + type(ex).__name__, str(ex)[:200],
+                          case=dict(a, probe='history'), predicate='construction / calls succeed on legal inputs')
+            done += 1
         done += ctx.stats.get('C:mc-probe-sets', 0) - before
-    probe_many_sources(ctx, env, rng)
+    try:
+        probe_many_sources(ctx, env, rng)
+    except Exception as ex:  # noqa: BLE001
+        ctx.violation('MCMultiDatasetSignalGenerator', 'history:many-sources:raises-' + type(ex).__name__, str(ex)[:200],
+                      case={'part': 'C', 'probe': 'many-sources'}, predicate='construction succeeds with > 128 sources')
 
 
 # =========================================================================== part D: the relocation loop
